@@ -1,0 +1,9 @@
+//go:build verif
+
+package subscriber
+
+// VerifCache hands the subscriber's block cache to the verification harness: the race check writes through it like
+// fetchLoop does while readers go through EthereumSubscriber.GetOldestBlock like the feeder loop does.
+func (sub *EthereumSubscriber) VerifCache() *BlockCache {
+	return sub.cache
+}
